@@ -198,15 +198,17 @@ Definition wf_objb (inl : bool) (s : schema) (h : heap) (f : fsobj) : bool :=
   match obj_cands inl s h f with Ok l => forallb (okval h) l | _ => false end.
 Definition wf_heapb (inl : bool) (s : schema) (h : heap) : bool := forallb (fun p => wf_objb inl s h (snd p)) h.
 Definition seeds_liveb (h : heap) (seeds : list oid) : bool := forallb (live h) seeds.
-(* explicit ids: pairwise distinct (id 0 = cas:NULL apart) and below the generator's next id *)
+(* explicit ids: pairwise distinct (id 0 = cas:NULL apart) and below the generator's next id — or no id is missing, so
+   that the generator is not consulted *)
 Fixpoint nodupZ (l : list Z) : bool :=
   match l with [] => true | x :: r => negb (existsb (Z.eqb x) r) && nodupZ r end.
 Fixpoint nodupN (l : list N) : bool :=
   match l with [] => true | x :: r => negb (memN x r) && nodupN r end.
 Definition explicit_ids (h : heap) : list Z :=
   flat_map (fun p => match o_id (snd p) with Some i => if i =? 0 then [] else [i] | None => [] end) h.
+Definition has_idb (p : oid * fsobj) : bool := match o_id (snd p) with Some _ => true | None => false end.
 Definition ids_okb (h : heap) (next : Z) : bool :=
-  nodupN (map fst h) && nodupZ (explicit_ids h) && forallb (fun i => i <? next) (explicit_ids h).
+  nodupZ (explicit_ids h) && (forallb (fun i => i <? next) (explicit_ids h) || forallb has_idb h).
 
 (* ---- the unrepaired loop (pinned tree before ce2ede6), kept for the refutations of C15 (RefutedC15.v) ---- *)
 Definition visited_id (w : wstate) (o : oid) : bool :=          (* `ref.xmiID in all_fs` *)
